@@ -95,9 +95,11 @@ def run(tier, seed):
     for it in range(max(4, nrep // 2)):
         mname, x0, k, bound = [("models", -6.0, 12.0, 9.0), ("super", -5.0, 9.0, 6.0), ("modelx", -7.0, 12.0, 9.0)][it % 3]
         cls = ["cumulative", "es-leaf"][it % 2]; sd = rng.randrange(2 ** 31)
+        zl3 = [rng.random() * 0.05 for _ in range(60)]          # small thresholds: many attempts, each with two open channels
         def one():
             np.random.seed(rng.randrange(2 ** 31)); random.seed(rng.randrange(2 ** 31))
             kw = dict(dt=15.0, bounds=[-bound, bound], max_steps=500, seed_sequence=sd)
+            if cls == "cumulative": kw["zeta_list"] = list(zl3)
             if cls == "es-leaf": kw.update(spawn_stack=None, queue=queue.Queue())
             C = mudslide.TrajectoryCum if cls == "cumulative" else EvenSamplingTrajectory
             outs = []
